@@ -211,7 +211,9 @@ pub(crate) fn unicode_other(c: char) -> bool {
     OTHER.get_or_init(|| regex::Regex::new(r"\p{C}").unwrap()).is_match(c.encode_utf8(&mut buf))
 }
 
-pub(crate) const LINE_ALPHABET: [&[u8]; 20] = [
+pub(crate) const LINE_ALPHABET: [&[u8]; 24] = [
+    // exit code look-alikes at the edge of i32: an OUTPUT line of this form is written as `[..] (equal)`
+    b"[2147483648]", b"[99999999999]", b"[2147483647]", b"[0002147483647]",
     "total\u{a0}(glob)".as_bytes(), "x\u{3000}(?)".as_bytes(), b"foo", b"foo (glob)", b"foo (?)", b"foo ()", b"[1]", b"$ x", b"> x", b"```", b"", b"  ", b"x\x01", b"a\\tb", b"a\\tb\x01", "é".as_bytes(), b"\xff", b"# c", b"foo (no-eol)", b"x\x01 (no-eol)",
 ];
 
@@ -614,8 +616,8 @@ fn update_generate_case(prop: &str, esc: Escaper, cmd: &str, exps: &[&str], expe
 /// expectations of every quantifier and of several kinds, chosen to (mis)match the lines of `UPD_OUT`
 const UPD_EXP: [&str; 7] = ["foo", "bar", "ba* (glob)", "foo (?)", "b* (glob+)", "f.* (regex*)", "> x"];
 /// output lines: matched by one / several / none of `UPD_EXP`; two that look like test syntax
-const UPD_OUT: [&[u8]; 6] = [b"foo", b"bar", b"baz", b"[1]", b"$ x\x01", b"> x"];
-const UPD_EXP_MORE: [&str; 16] = ["> x", "> * (glob)", "foo", "bar", "baz", "ba* (glob)", "foo (?)", "b* (glob+)", "f.* (regex*)", "foo (no-eol)", "a\\tb (escaped)", "[1] (equal)", "* (glob*)", "x\\x01 (escaped)", "foo (glob) (equal)", "  "];
+const UPD_OUT: [&[u8]; 7] = [b"foo", b"bar", b"baz", b"[1]", b"[2147483648]", b"$ x\x01", b"> x"];
+const UPD_EXP_MORE: [&str; 17] = ["[2147483648] (equal)","> x", "> * (glob)", "foo", "bar", "baz", "ba* (glob)", "foo (?)", "b* (glob+)", "f.* (regex*)", "foo (no-eol)", "a\\tb (escaped)", "[1] (equal)", "* (glob*)", "x\\x01 (escaped)", "foo (glob) (equal)", "  "];
 
 fn update_generate_run(ctx: &Ctx, prop: &str) {
     let seed = ctx.seed;
@@ -1236,7 +1238,7 @@ fn c10_case(prop: &str, doc: &str, kinds: &[u64], tag: &str) -> CaseRec {
 
 /// lines that hit every branch of the tokenizer and of the block writer
 const C10_LINES: [&str; 12] = ["---", "```scrut", "```", "````scrut {timeout: 5s}", "# c", "$ x", "out", "", "```py", "```scrut {  }", "``` scrut  {a: 1} ", "````"];
-const C10_LINES_MORE: [&str; 16] = ["```scrut {\u{a0}a: 1}", "```scrut { \u{3000} }", "--- ", " ---", "`````", "```scrut {a: 1} trailing", "é```", "```scrut\u{a0}{x}", "~~~", "#", "> y", "[1]", "\t", "```scrutx", "``", "```scrut{timeout: 1s}"];
+const C10_LINES_MORE: [&str; 17] = ["[2147483648]","```scrut {\u{a0}a: 1}", "```scrut { \u{3000} }", "--- ", " ---", "`````", "```scrut {a: 1} trailing", "é```", "```scrut\u{a0}{x}", "~~~", "#", "> y", "[1]", "\t", "```scrutx", "``", "```scrut{timeout: 1s}"];
 const C10_KINDS: [&[u64]; 6] = [&[1, 4], &[0, 2, 3], &[], &[8], &[7, 5], &[6, 1, 0, 4]];
 
 fn c10_run(ctx: &Ctx, prop: &str) {
